@@ -45,6 +45,17 @@ CORPUS = {
         [('rp_create', 39, 1, 1, None), ('rp_create', 39, 2, 2, 1), ('rp_create', 39, 3, 3, 2), ('rp_create', 39, 4, 4, 3),
          ('rp_create', 39, 5, 5, 4), ('rp_update', 39, 4, 4, None), ('rp_update', 39, 3, 3, 5), ('rp_update', 39, 4, 4, 1),
          ('rp_update', 39, 4, 4, 3), ('rp_update', 39, 1, 1, 3)],
+        # a bushy tree whose siblings were NOT created back to back (1 > {2 > {4, 7}, 3 > 6, 5}), then loops through every
+        # level (refused) and moves of inner nodes with descendants (seed C09-f: children grouped by consecutive rows)
+        [('rp_create', 39, 1, 1, None), ('rp_create', 39, 2, 2, 1), ('rp_create', 39, 3, 3, 1), ('rp_create', 39, 4, 4, 2),
+         ('rp_create', 39, 5, 5, 1), ('rp_create', 39, 6, 6, 3), ('rp_create', 39, 7, 7, 2),
+         ('rp_update', 39, 1, 1, 2), ('rp_update', 39, 1, 1, 4), ('rp_update', 39, 1, 1, 6), ('rp_update', 39, 2, 2, 7),
+         ('rp_create', 39, 8, 8, None), ('rp_update', 39, 1, 1, 8), ('rp_update', 39, 2, 2, None), ('rp_update', 39, 8, 8, 7),
+         ('rp_update', 39, 2, 2, 6), ('rp_update', 39, 3, 3, 4)],
+        # the same with first-time parenting of a root at 1.14 (no re-parenting below 1.37)
+        [('rp_create', 14, 1, 1, None), ('rp_create', 14, 2, 2, 1), ('rp_create', 14, 3, 3, 1), ('rp_create', 14, 4, 4, 2),
+         ('rp_create', 14, 5, 5, 1), ('rp_create', 14, 6, 6, 4), ('rp_update', 14, 1, 1, 4), ('rp_update', 14, 1, 1, 6),
+         ('rp_create', 14, 7, 7, None), ('rp_update', 14, 7, 7, 6), ('rp_create', 14, 8, 8, None), ('rp_update', 14, 1, 1, 8)],
     ],
 }
 
